@@ -96,23 +96,35 @@ def r3_error_condition(a, tier):
         floor=3,
     )
     fn = a.p.func('tatsu.peg.base.Grammar._mark_left_recursion')
-    var = None
-    for n in walk_no_defs(fn.node):
-        if isinstance(n, ast.Assign) and isinstance(n.value, ast.Call) and dotted(n.value.func) == 'mark_left_recursion' \
-                and isinstance(n.targets[0], ast.Name):
-            var = n.targets[0].id
-            arg_ok = n.value.args and norm(n.value.args[0]) == 'self.rules'
-            if not arg_ok:
-                rep.fail(fn.qualname, 'analysis-args', 'mark_left_recursion is not run over self.rules', fn.loc)
-    ok = False
-    for n in walk_no_defs(fn.node):
-        if isinstance(n, ast.If) and any(isinstance(x, ast.Raise) and x.exc is not None and 'GrammarError' in norm(x.exc) for s in n.body for x in ast.walk(s)):
-            conj = {norm(c) for c in (n.test.values if isinstance(n.test, ast.BoolOp) and isinstance(n.test.op, ast.And) else [n.test])}
-            ok = conj == {var, 'not self.config.left_recursion'}
-            rep.add({'raise_condition': sorted(conj), 'ok': ok})
-    if not ok:
-        rep.fail(fn.qualname, 'error-condition', 'GrammarError is not raised exactly under `<left-recursive rules> and not '
-                 'self.config.left_recursion`', fn.loc)
+    # interpreted on a stand-in grammar: the analysis result (none / one marked rule) x config.left_recursion
+    from ..minieval import Obj, Raised, Unsupported
+    from ..modelinterp import Hook, ModelInterp, Stub
+    for marked in (False, True):
+        for allowed in (False, True):
+            rules = [Obj(name='a', is_lrec=marked)]
+            seen = []
+
+            def analysis(rs, seen=seen, marked=marked):
+                seen.append(rs)
+                return [r for r in rs if marked]
+            me = Stub('tatsu.peg.base.Grammar', rules=rules, config=Obj(left_recursion=allowed))
+            it = ModelInterp(a, {'mark_left_recursion': Hook(analysis)})
+            raised = None
+            try:
+                it.call_fn(fn, [me])
+            except Raised as r:
+                raised = r.cls_name
+            except Unsupported as e:
+                raise AnalysisError(f'cannot interpret {fn.qualname}: {e}') from e
+            want = 'GrammarError' if (marked and not allowed) else None
+            ok = raised == want and len(seen) == 1 and seen[0] is rules
+            rep.add({'fn': fn.qualname, 'left_recursive_rules_found': marked, 'config.left_recursion': allowed, 'raises': raised,
+                     'analysis_ran_over_self.rules': len(seen) == 1 and seen[0] is rules, 'ok': ok})
+            if not ok:
+                rep.fail(fn.qualname, f'error-condition:{marked}:{allowed}', f'with left-recursive rules {"found" if marked else "absent"} and '
+                         f'config.left_recursion={allowed}, _mark_left_recursion raises {raised} (analysis run over self.rules: '
+                         f'{len(seen) == 1 and seen[0] is rules}); required: {want or "no error"} - GrammarError exactly when rules '
+                         f'were marked and left recursion is disabled', fn.loc)
     rc = a.p.func('tatsu.contexts.engine.ParserEngine.recursive_call')
     ok = False
     for n in walk_no_defs(rc.node):
